@@ -9,11 +9,11 @@
 //
 // ops (last token of resp/respx/comp/rows/rowsx is the wire frame in hex):
 //   resp  <fv> <logical response> <wire>     spec-backed: well-formed response, framer version = response version
-//   respx <fv> <logical response> <wire>     model-vs-code: known-finding inputs (KF-C04-1), non-strict flag/version combos
+//   respx <fv> <logical response> <wire>     model-vs-code: framer version different from the response's version
 //   comp  <fv> <logical response> <wire>     spec-backed: body compressed with the real snappy compressor before the real receive path
 //   raw   <fv> <version> <flags> <op> <stream> <body>   model-vs-code: malformed bodies (truncations, bad counts), outcome ok/err/crash
 //   rows  <api> <dests> <fv> <logical response> <wire>   spec-backed: cells through scan|scanner|mapscan|slicemap
-//   rowsx <api> <dests> <fv> <logical response> <wire>   model-vs-code: nil destinations, known-finding shapes (KF-C04-2, KF-C04-3), malformed rows
+//   rowsx <api> <dests> <fv> <logical response> <wire>   model-vs-code: nil destinations (KF-C04-3 on tuple columns), tuple<> columns, duplicate RowData names, malformed rows
 //   skip / skipx  end to end through a real Session on the in-memory cluster, see e2e.go
 package main
 
